@@ -24,3 +24,72 @@ package selection
 //@        (forall a model.BuildNode :: {reach(graph, a, ranged()[j])} reach(graph, a, ranged()[j]) ==> isSel(a) && platformOK(a))
 //@   invariant [monotone] forall a model.BuildNode :: isNode(a) && old(isSel(a)) ==> isSel(a)
 //@   invariant [only_ancestors] forall a model.BuildNode :: {reach(graph, a, node)} isNode(a) && isSel(a) && !old(isSel(a)) ==> reach(graph, a, node)
+
+// ---- filters: each predicate is proved equivalent to a first-order formula over patterns and tags ------------------
+
+//@ func (*Selector).nodeMatchesPatterns(s, node) (r)
+//@   pure
+//@   requires [node] isNode(node)
+//@   ensures [spec] r <==> anyPatMatch(s.Patterns, labelOf(node))
+//@ loop #1
+//@   invariant [none_so_far] forall j int :: 0 <= j && j <= rangeindex ==> !patMatch(s.Patterns[j], labelOf(node))
+
+//@ func (*Selector).targetMatchesPatterns(s, target) (r)
+//@   pure
+//@   ensures [spec] r <==> anyPatMatch(s.Patterns, target.Label)
+//@ loop #1
+//@   invariant [none_so_far] forall j int :: 0 <= j && j <= rangeindex ==> !patMatch(s.Patterns[j], target.Label)
+
+//@ func (*Selector).targetTagsMatch(s, target) (r)
+//@   pure
+//@   ensures [spec] r <==> len(s.Tags) == 0 || anyTagIn(target.Tags, s.Tags)
+//@ loop #1
+//@   invariant [none_so_far] forall j int :: 0 <= j && j <= rangeindex ==> !inSlice(target.Tags, s.Tags[j])
+
+//@ func (*Selector).targetExcludeTagsMatch(s, target) (r)
+//@   pure
+//@   ensures [spec] r <==> anyTagIn(target.Tags, s.ExcludeTags)
+//@ loop #1
+//@   invariant [none_so_far] forall j int :: 0 <= j && j <= rangeindex ==> !inSlice(target.Tags, s.ExcludeTags[j])
+
+//@ func TargetMatchesTypeSelection(target, targetType) (r)
+//@   pure
+//@   ensures [spec] r <==> typeSelOK(targetType, hasSuffix(target.Label.Name, "test"), target.BinOutput.Identifier != "")
+
+//@ func (*Selector).targetMatchesTypeSelection(s, target) (r)
+//@   pure
+//@   ensures [spec] r <==> typeSelOK(s.TargetType, hasSuffix(target.Label.Name, "test"), target.BinOutput.Identifier != "")
+
+//@ func (*Selector).nodeMatchesFilters(s, node) (r)
+//@   pure
+//@   requires [node] isNode(node)
+//@   ensures [spec] r <==> matchesFilters(s, node)
+
+//@ func (*Selector).Match(s, node) (r)
+//@   pure
+//@   requires [node] isNode(node)
+//@   ensures [spec] r <==> matchesFilters(s, node) && platformOK(node)
+
+// C12 top level: after a successful selection, every newly selected node matches all filters (and the platform) or is a
+// transitive dependency of a node that does; every matching node and all its transitive dependencies are selected.
+//@ func (*Selector).SelectTargetsForBuild(s, graph) (n, skipped, err)
+//@   requires [abs] absEdges(graph) && edgesAreNodes(graph) && nodesWF(graph)
+//@   modifies heap("H$S$model.Target$IsSelected"), heap("H$S$model.Alias$IsSelected")
+//@   ensures [only_matches_and_their_dependencies] err == nil ==> (forall a model.BuildNode :: isNode(a) && isSel(a) && !old(isSel(a)) ==>
+//@        (matchesFilters(s, a) && platformOK(a)) ||
+//@        (exists k label.TargetLabel :: has(graph.nodes, k) && matchesFilters(s, graph.nodes[k]) && platformOK(graph.nodes[k]) && reach(graph, a, graph.nodes[k])))
+//@   ensures [matches_and_dependencies_selected] err == nil ==> (forall k label.TargetLabel :: has(graph.nodes, k) && matchesFilters(s, graph.nodes[k]) && platformOK(graph.nodes[k]) ==>
+//@        isSel(graph.nodes[k]) && (forall a model.BuildNode :: {reach(graph, a, graph.nodes[k])} reach(graph, a, graph.nodes[k]) ==> isSel(a) && platformOK(a)))
+//@ loop #1
+//@   invariant [only_matches_and_their_dependencies] forall a model.BuildNode :: isNode(a) && isSel(a) && !old(isSel(a)) ==>
+//@        (matchesFilters(s, a) && platformOK(a)) ||
+//@        (exists k label.TargetLabel :: has(graph.nodes, k) && matchesFilters(s, graph.nodes[k]) && platformOK(graph.nodes[k]) && reach(graph, a, graph.nodes[k]))
+//@   invariant [seen_matches_selected] forall k label.TargetLabel :: seen(k) && has(graph.nodes, k) && matchesFilters(s, graph.nodes[k]) && platformOK(graph.nodes[k]) ==>
+//@        isSel(graph.nodes[k]) && (forall a model.BuildNode :: {reach(graph, a, graph.nodes[k])} reach(graph, a, graph.nodes[k]) ==> isSel(a) && platformOK(a))
+//@   invariant [monotone] forall a model.BuildNode :: isNode(a) && old(isSel(a)) ==> isSel(a)
+
+// query selection (grog list etc.): exactly the filter and platform matches
+//@ func (*Selector).SelectTargets(s, graph) ()
+//@   requires [wf] nodesWF(graph)
+//@   modifies heap("H$S$model.Target$IsSelected"), heap("H$S$model.Alias$IsSelected")
+//@   ensures [exactly_matches] forall k label.TargetLabel :: has(graph.nodes, k) && !old(isSel(graph.nodes[k])) ==> (isSel(graph.nodes[k]) <==> matchesFilters(s, graph.nodes[k]) && platformOK(graph.nodes[k]))
